@@ -268,6 +268,40 @@ func runC15(p *core.Prog, r *core.Report, tier string) {
 		}
 	}
 	r.Floor("C15.j sync committee scheduling calls", nElig, 5)
+	// … and the helper that names that set asks the accounts provider for the sync committee accounts: the provider's
+	// attesting-active query (directly or through another helper of the controller) leaves out exited members
+	if sf := p.Func("services/controller/standard", "Service", "syncCommitteeIndicesForEpoch"); sf != nil {
+		reaches := func(name string) bool {
+			seen := map[*ssa.Function]bool{}
+			var walk func(g *ssa.Function, depth int) bool
+			walk = func(g *ssa.Function, depth int) bool {
+				if g == nil || seen[g] || depth > 3 {
+					return false
+				}
+				seen[g] = true
+				found := false
+				core.EachInstr(g, func(in ssa.Instruction) {
+					ci, ok := in.(ssa.CallInstruction)
+					if !ok || found {
+						return
+					}
+					if core.MethodName(ci.Common()) == name {
+						found = true
+						return
+					}
+					if callee := ci.Common().StaticCallee(); callee != nil && callee.Pkg == sf.Pkg && walk(callee, depth+1) {
+						found = true
+					}
+				})
+				return found
+			}
+			return walk(sf, 0)
+		}
+		r.Check(reaches("SyncCommitteeAccountsForEpoch") && !reaches("ValidatingAccountsForEpoch"), "C15.j", core.FnKey(sf)+"|asks-for-sync-committee-accounts", p.Pos(sf.Pos()), "the sync-committee-eligible set is obtained with SyncCommitteeAccountsForEpoch",
+			"the set of validators that sync committee duties are set up for is not obtained with SyncCommitteeAccountsForEpoch (or also with ValidatingAccountsForEpoch): exited or slashed validators that are still committee members get no duty")
+	} else {
+		r.Undecide("C15.j", "services/controller/standard.Service.syncCommitteeIndicesForEpoch", "", "anchor not found")
+	}
 
 	// ---- (k) chain constants are read under their own names (sync committee size, subnet count, aggregator target):
 	// shared with C14.k ----
